@@ -165,8 +165,7 @@ def guarded(case):
 
 
 def replay(case):
-    v = guarded(case)
-    return v
+    return common.bounded_map(guarded, [case], 1, 300)[0]     # in a worker: a hang inside the library is a verdict
 
 
 def run(chk):
@@ -204,8 +203,7 @@ def run(chk):
         cases.append({'kind': 'stack', 'seed': seed, 'ts': i % 3, 'cli_max': cli_max, 'srv_max': srv_max, 'uids': uids, 'sizes': sizes,
                       'source': ['memory', 'file'][i % 2], 'sink': ['dir', 'tmp'][(i // 2) % 2],
                       'outcomes': [rnd.choice([0, 0, 0xB000, 0xB007, 0xA700, 'err']) for _ in range(k)]})
-    with multiprocessing.Pool(min(8, os.cpu_count() or 1)) as pool:
-        results = pool.map(guarded, cases, chunksize=1)
+    results = common.bounded_map(guarded, cases, min(8, os.cpu_count() or 1), 300)
     for case, v in zip(cases, results):
         if v and v.startswith('harness:'):
             common.raise_for(v[len('harness:'):])
@@ -216,7 +214,7 @@ def run(chk):
         if v:
             if common.timing_verdict(v) and case['kind'] == 'stack':
                 # a verdict that depends on real time (threads, 50 ms polls, timeouts) counts only if it reproduces twice more
-                again = [guarded(case) for _ in range(2)]
+                again = common.bounded_map(guarded, [case, case], 2, 300)
                 if not all(again):
                     chk.count('timing-verdict-not-reproduced'); continue
             chk.violation('C15:%s:%s' % (case['kind'], v[:25]), v, case)
